@@ -74,10 +74,12 @@ func (l *evlog) snapshot() []Ev {
 // the world of one child process
 
 type world struct {
-	mods  []*modules.Module
-	mgmt  bool            // module management enabled: mods = storage <- service <- app (only app is enabled itself)
-	other *modules.Module // unrelated module that the management passes switch on and off
-	cur   atomic.Pointer[histRun]
+	mods      []*modules.Module
+	mgmt      bool                   // module management enabled: mods = storage <- service <- app (only app is enabled itself)
+	other     *modules.Module        // unrelated module that the management passes switch on and off
+	life      *modules.Module        // module that the managed-restart plan stops and starts again
+	lifeStart atomic.Pointer[func()] // what the start function of "life" does (set by the plan)
+	cur       atomic.Pointer[histRun]
 
 	// sentinel: a harness task outside all histories (MaxDelay 0: never in the
 	// schedule). One pass of it through the normal queue is a barrier for the queue
@@ -202,10 +204,20 @@ func startWorld(mgmt bool) (*world, error) {
 		// as its first- and second-level dependencies
 		w.mods = append(w.mods, modules.Register("vtasks2", nop, nop, nop, "vtasks1"))
 		w.other = modules.Register("vother", nop, nop, nop)
+		w.life = modules.Register("vlife", nop, func() error {
+			if f := w.lifeStart.Load(); f != nil {
+				(*f)()
+			}
+			return nil
+		}, nop)
 		modules.EnableModuleManagement(func(*modules.Module) {})
 		w.mods[2].Enable()
 	}
 	log.SetLogLevel(log.CriticalLevel)
+	// panics of task functions are reported through a channel that nobody drains
+	// (capacity 1): a report must never hold up the task that panicked
+	modules.SetErrorReportingChannel(make(chan *modules.ModuleError, 1))
+	modules.SetStdErrReporting(false)
 	// keep os.Args free of anything flag.Parse (called by modules.Start) could trip over
 	os.Args = os.Args[:1]
 	if err := modules.Start(); err != nil {
@@ -449,6 +461,9 @@ func (tr *taskRun) fn(ctx context.Context, _ *modules.Task) error {
 	hr.log.rec(Ev{K: "end", Task: tr.idx, Run: run})
 	tr.active.Add(-1)
 	tr.ends.Add(1)
+	if tr.spec.Panic == run {
+		panic(fmt.Sprintf("verif: scripted panic of task t%d in execution #%d", tr.idx, run))
+	}
 	return nil
 }
 
@@ -673,7 +688,7 @@ func (hr *histRun) quiesce(limit time.Duration, supervise bool) bool {
 			idleSeen = false
 			// not idle, but nothing moved since the last poll: is the bookkeeping itself
 			// inconsistent (then quiescence can never be reached or means nothing)?
-			if s == prevPoll && i > 20 && i%8 == 0 && (hr.checkStructure() || hr.checkStuck()) {
+			if s == prevPoll && i > 20 && i%8 == 0 && (hr.checkStructure() || hr.checkStuck() || hr.checkParkedInReport()) {
 				return false
 			}
 		}
@@ -759,6 +774,15 @@ func (w *world) run(h *Hist) *histResult {
 		quiet = hr.runPlan(limit)
 	case clsLong:
 		quiet = hr.runLong()
+	case clsIdle:
+		// the tasks exist since newHist; nothing is called for them for 62 s (longer
+		// than the execution-wait limit, the max delay and the timeslot wait)
+		time.Sleep(62 * time.Second)
+		hr.do("c0", 0, Op{Kind: opQueue, Task: 0})
+		hr.do("c0", 0, Op{Kind: opQueueP, Task: 1})
+		hr.do("c0", 0, Op{Kind: opASAP, Task: 2})
+		hr.do("c0", 0, Op{Kind: opSchedule, Task: 3, OffMs: 20})
+		quiet = hr.quiesce(limit, true)
 	default:
 		hr.runClients()
 		quiet = hr.quiesce(limit, true)
@@ -1008,6 +1032,48 @@ func (hr *histRun) runPlan(limit time.Duration) bool {
 		hr.do(c, 0, Op{Kind: opSchedule, Task: T, OffMs: 300})
 		hr.do(c, 0, Op{Kind: opCancel, Task: T})
 		hr.do(c, 0, Op{Kind: opSchedule, Task: T, OffMs: md})
+	case "panic-requeue":
+		// T's first execution panics (the panic is recovered and reported by portbase);
+		// afterwards T is submitted again and has to run again.
+		hr.tasks[T].spec.Panic = 1
+		hr.do(c, 0, Op{Kind: opQueue, Task: T})
+		if hr.waitEnd(T, 1) {
+			tr := hr.tasks[T]
+			waitForAbort(&hr.abort, 3*time.Second, func() bool { // pacing: deferred reset done
+				ex, _, _, _, _ := tr.t.VerifTaskState()
+				return !ex
+			})
+			hr.do(c, 0, Op{Kind: vlibPickKind(hr), Task: T})
+		}
+	case "managed-restart":
+		// managed world only: the "life" module is stopped and started again by
+		// management passes; the start function of its new life creates three tasks and
+		// submits them. Once the module is online they have to run.
+		w := hr.w
+		if !w.mgmt {
+			return hr.quiesce(limit, true)
+		}
+		w.life.Enable()
+		_ = modules.ManageModules() // a first life (a no-op if it already runs)
+		w.life.Disable()
+		_ = modules.ManageModules() // stopped
+		startFn := func() {
+			for _, i := range []int{T, U, V} {
+				tr := hr.tasks[i]
+				tr.t = w.life.NewTask(tr.name, tr.fn)
+			}
+			hr.do("start-fn", 0, Op{Kind: opQueue, Task: T})
+			hr.do("start-fn", 0, Op{Kind: opSchedule, Task: U, OffMs: md})
+			hr.do("start-fn", 0, Op{Kind: opASAP, Task: V})
+		}
+		w.lifeStart.Store(&startFn)
+		w.life.Enable()
+		_ = modules.ManageModules() // second life: the start function runs
+		w.lifeStart.Store(nil)
+		if !w.life.Online() {
+			hr.failed = "the restarted module did not come online"
+		}
+		hr.mark("tasks-submitted-from-start-function-of-second-life")
 	case "zero-exposure":
 		// T is the head of the schedule (+10 s, never due within the history) and is
 		// withdrawn and re-scheduled again and again while a second client keeps waking
@@ -1375,5 +1441,60 @@ func (hr *histRun) checkStuck() bool {
 	hr.log.rec(Ev{K: "mark", Op: "stuck:schedule-handler-parked-with-due-head", Task: -1,
 		C: fmt.Sprintf("the first entry of the schedule (%s) is due for more than 50 ms, both queues are empty and nothing executes, but the schedule handler does not act on it: woken eight times at least 250 ms apart, it was each time found parked in its select again without any decision (modules.sched.decided) about any task", who)})
 	hr.setAbort(false, "the schedule handler is stuck with a due head entry")
+	return true
+}
+
+// checkParkedInReport decides a structural stuck state of an execution: the task
+// function has returned (its end event is recorded) but the task stays executing, and
+// the goroutine dump shows a goroutine *parked* (select / chan send) inside
+// (*ModuleError).Report below executeWithLocking's deferred handler - seen in two dumps
+// with no event in between. On the unchanged code Report hands the error to the
+// reporting channel with a non-blocking send (select with default), in which a
+// goroutine can never be parked; a task held there never resets its executing state, so
+// every later submission of it is swallowed.
+func (hr *histRun) checkParkedInReport() bool {
+	cand := false
+	for _, tr := range hr.tasks {
+		if ex, _, _, _, _ := tr.t.VerifTaskState(); ex && tr.active.Load() == 0 && tr.ends.Load() == tr.runs.Load() && tr.runs.Load() > 0 {
+			cand = true
+		}
+	}
+	if !cand {
+		return false
+	}
+	parked := func() bool {
+		buf := make([]byte, 1<<20)
+		buf = buf[:runtime.Stack(buf, true)]
+		for _, blk := range strings.Split(string(buf), "\n\n") {
+			lines := strings.Split(blk, "\n")
+			if len(lines) < 2 || !strings.Contains(blk, "executeWithLocking") {
+				continue
+			}
+			if !(strings.Contains(lines[0], "[select") || strings.Contains(lines[0], "[chan send")) {
+				continue
+			}
+			for _, ln := range lines[1:] {
+				if ln == "" || ln[0] == '\t' || strings.HasPrefix(ln, "runtime.") {
+					continue
+				}
+				if strings.Contains(ln, "modules.(*ModuleError).Report(") {
+					return true
+				}
+				break
+			}
+		}
+		return false
+	}
+	seq := hr.log.now()
+	if !parked() {
+		return false
+	}
+	time.Sleep(20 * time.Millisecond)
+	if !parked() || hr.log.now() != seq {
+		return false
+	}
+	hr.log.rec(Ev{K: "mark", Op: "stuck:task-parked-in-error-report", Task: -1,
+		C: "a task function has returned (after a panic) but the task stays executing: its goroutine is parked inside (*ModuleError).Report below the deferred handler of executeWithLocking, waiting for somebody to read the error reporting channel; the executing state is never reset and every later submission of the task is swallowed"})
+	hr.setAbort(false, "an execution is parked in the error report")
 	return true
 }
